@@ -32,6 +32,7 @@ def evaluate(diff, demo, pid, all_props=False, wt=None):
             return out
     try:
         sh(["git", "checkout", "--", "."], cwd=wt)
+        sh(["git", "clean", "-fdq", "eqsig"], cwd=wt)
         env = dict(os.environ, PYTHONPATH=wt, PYTHONDONTWRITEBYTECODE="1")
         rc, o = sh([PY, demo], cwd=wt, env=env, timeout=600)
         out["demo_clean"] = rc
@@ -60,6 +61,7 @@ def evaluate(diff, demo, pid, all_props=False, wt=None):
         return out
     finally:
         sh(["git", "checkout", "--", "."], cwd=wt)
+        sh(["git", "clean", "-fdq", "eqsig"], cwd=wt)           # files a change added
         sh("find . -name __pycache__ -prune -exec rm -rf {} +", cwd=wt)
         if own:
             sh(["git", "-C", "/repo", "worktree", "remove", "--force", wt])
